@@ -484,7 +484,8 @@ def get_matrix_of_event_counts_from_event_sets_and_leaves(
                     for leaf in leaves
                 ]
             )
-    return np.array(records, dtype=np.int32)
+    # rows in a fixed order: event_sets is a set
+    return np.array(sorted(records), dtype=np.int32)
 
 
 def order_matrix_of_event_counts(
@@ -574,7 +575,7 @@ def assure_or_and_operators_are_correct_under_branch(
     if process_tree.operator is None:
         return
     if process_tree.operator.value == Operator.PARALLEL.value:
-        leaves = set(get_process_tree_leaves(process_tree))
+        leaves = sorted(set(get_process_tree_leaves(process_tree)))
         if not check_is_ok_and_under_branch(event_sets, leaves):
             process_tree.operator = Operator.XOR
     if process_tree.operator.value == Operator.OR.value:
